@@ -14,11 +14,14 @@ PSEUDO = ["1", "-2", "+3", "0", "1.5", "-0.5", "1e3", "1E-2", ".5", "5.", "true"
 KEYS_STYLED = ["snake_case", "camelCase", "PascalCase", "kebab-case", "with space", "dotted.name", "a1b2", "x2y",
                "class", "def", "import", "list", "dict", "type", "id", "pk", "optional", "field", "Field", "List", "Any",
                "datetime", "schema", "str", "int", "None", "True", "from", "lambda", "Root", "Model0", "self",
-               "naïve", "straße", "日本語a", "приветx", "Ünïcode", "a\"b", "a\\b", "a'b", "tab\tkey", "new\nline", "q?mark",
+               "naïve", "straße", "приветx", "Ünïcode", "a\"b", "a\\b", "a'b", "tab\tkey", "new\nline", "q?mark",
                "UPPER", "mixedCASE_key", "a__b", "trailing_", "items", "children", "data", "ITEM-s", "x😀y",
                "dataclass", "attr", "BaseModel", "Literal", "Optional", "Union", "Dict", "converter", "json"]
-KEYS_OUT = ["1abc", "0", "9lives", "_private", "__dunder__", "", "-", "日本", "***", " ", "fooBar", "foo_bar", "FooBar",
+KEYS_OUT = ["日本語a", "1abc", "0", "9lives", "_private", "__dunder__", "", "-", "日本", "***", " ", "fooBar", "foo_bar", "FooBar",
             "foo-bar", "😀"]
+
+
+KEYS_MIXED_OUT = KEYS_OUT + KEYS_STYLED
 
 
 def rng_for(seed, *tags):
@@ -82,21 +85,45 @@ def gen_object(rng, depth, pool, drop_p=0.2):
     return o
 
 
+def fold(k):
+    """case/punctuation folding that defines C11's domain: keys of one object must be pairwise distinct after it"""
+    import re
+    from unidecode import unidecode
+    return re.sub(r"[\W_]+", "", unidecode(k)).lower()
+
+
+def distinct_after_folding(keys):
+    seen = set()
+    out = []
+    for k in keys:
+        f = fold(k)
+        if f and f not in seen:
+            seen.add(f)
+            out.append(k)
+    return out
+
+
+def sample_keys(rng, keys, lo, hi):
+    """a key set in the documented domain when `keys` is (pairwise distinct after folding)"""
+    return rng.sample(keys, k=min(len(keys), rng.randint(lo, hi)))
+
+
 def key_pool(rng, styled_p=0.0, out_p=0.0):
     r = rng.random()
     if r < out_p:
-        src = KEYS_OUT + KEYS_STYLED
+        return KEYS_MIXED_OUT
     elif r < out_p + styled_p:
-        src = KEYS_STYLED + WORDS
-    else:
-        src = WORDS
-    return src
+        # the key universe of one case: pairwise distinct after folding (C11's domain), a different subset every time
+        u = KEYS_STYLED + WORDS
+        u = rng.sample(u, k=len(u))
+        return distinct_after_folding(u)
+    return WORDS
 
 
 def gen_samples(rng, max_samples=4, depth=3, keys=None):
     """a non-empty list of JSON objects drawn from one key pool, so that fields merge / go optional / unionise"""
     if keys is not None:
-        pool = rng.sample(keys, k=rng.randint(1, 6))
+        pool = sample_keys(rng, keys, 1, 6)
         n = rng.randint(1, max_samples)
         return [gen_object_k(rng, depth, pool, keys, drop_p=0.25) for _ in range(n)]
     pool = rng.sample(WORDS, k=rng.randint(1, 6))
@@ -112,10 +139,10 @@ def gen_object_k(rng, depth, pool, keys, drop_p=0.2):
             continue
         r = rng.random()
         if depth > 0 and r < 0.3:
-            sub = rng.sample(keys, k=rng.randint(1, 4))
+            sub = sample_keys(rng, keys, 1, 4)
             o[k] = gen_object_k(rng, depth - 1, sub, keys, drop_p)
         elif depth > 0 and r < 0.45:
-            sub = rng.sample(keys, k=rng.randint(1, 3))
+            sub = sample_keys(rng, keys, 1, 3)
             o[k] = [gen_object_k(rng, depth - 1, sub, keys, 0.3) for _ in range(rng.randint(1, 3))]
         else:
             o[k] = gen_value(rng, min(depth, 1), WORDS)
